@@ -355,3 +355,38 @@ def monitor_replacement_keeps_history(ctx):
             else:
                 ctx.check(bool(pre), meth + '#prepend', 'store followed by .prepend(current)',
                           'a replaced monitor loses the history collected so far (no prepend of the old contents)', f, s)
+
+
+ENERGY_WRITERS = {
+    'mystic.abstract_solver:AbstractSolver.__init__': 'initial placeholders',
+    'mystic.abstract_solver:AbstractSolver.__set_bestEnergy': 'property setter',
+    'mystic.abstract_ensemble_solver:AbstractEnsembleSolver.__update_state': 'hand-back from the best member',
+    'mystic.abstract_sampler:AbstractSampler._reset_sampler': 'explicit re-initialisation of the whole sampler',
+}
+
+
+@rule('C04.h', min_instances=8)
+def who_writes_the_energies(ctx):
+    """stored energies (popEnergy, bestEnergy) are written only by the _Step methods (under the improvement rules of C01) and a frozen table of (re)initialisers: nothing else can discard or worsen the best-so-far"""
+    n = 0
+    for m in ctx.model.modules.values():
+        for q, fi in sorted(m.funcs.items()):
+            for node in walk_no_nested(fi.node):
+                hit = None
+                if isinstance(node, ast.Attribute) and isinstance(node.ctx, ast.Store) and node.attr in ('popEnergy', 'bestEnergy', '_bestEnergy'):
+                    hit = node.attr
+                elif isinstance(node, ast.Subscript) and isinstance(node.ctx, ast.Store):
+                    b = node.value
+                    while isinstance(b, ast.Subscript):
+                        b = b.value
+                    if isinstance(b, ast.Attribute) and b.attr in ('popEnergy', 'bestEnergy', '_bestEnergy'):
+                        hit = b.attr
+                if hit is None:
+                    continue
+                n += 1
+                ctx.touch(fi)
+                st = enclosing_stmt(node)
+                allowed = fi.anchor in ENERGY_WRITERS or (fi.name == '_Step' and fi.cls is not None)
+                ctx.check(allowed, fi.qualname + '#' + hit, 'allowed writer of the stored energies',
+                          '%s overwrites the stored energy %s outside an optimisation step: the best-so-far can be discarded or worsen' % (fi.qualname, hit), fi, st)
+    ctx.need(n >= 8, 'expected >= 8 writers of the stored energies, found %d' % n)
